@@ -278,12 +278,24 @@ def check(run, F, tier):
                 r3.violation(key, "accessor %s not found" % acc)
                 continue
             consts = set()
-            for b in f["blocks"]:
-                for s in b["stmts"]:
-                    if s["k"] == "assign" and s["rv"]["k"] == "bin" and s["rv"]["op"] in ("BitAnd", "Shr", "Shl"):
-                        for o in (s["rv"]["a"], s["rv"]["b"]):
-                            if "const" in o and "bits" in o["const"]:
-                                consts.add((s["rv"]["op"], o["const"]["bits"]))
+            # the accessor itself and the private helpers it delegates to (e.g. a shared qos_from_flags())
+            bodies, seen_b = [f], {f["path"]}
+            while bodies:
+                g = bodies.pop()
+                for b in g["blocks"]:
+                    for s in b["stmts"]:
+                        if s["k"] == "assign" and s["rv"]["k"] == "bin" and s["rv"]["op"] in ("BitAnd", "Shr", "Shl"):
+                            for o in (s["rv"]["a"], s["rv"]["b"]):
+                                if "const" in o and "bits" in o["const"]:
+                                    consts.add((s["rv"]["op"], o["const"]["bits"]))
+                    t = b["term"]
+                    if t["k"] == "call" and "fn" in t["func"].get("const", {}):
+                        fi = t["func"]["const"]["fn"]
+                        cp = (fi.get("res") or {}).get("path", fi["path"])
+                        h = F.fns.get(cp)
+                        if h is not None and cp not in seen_b and not h.get("pub") and h["path"].startswith("mqtt::packet::%s::publish::" % ver):
+                            seen_b.add(cp)
+                            bodies.append(h)
             want = {("BitAnd", meta["mask"] >> meta["shift"] if acc == "qos" else meta["mask"])}
             if acc == "qos":
                 want.add(("Shr", meta["shift"]))
